@@ -71,10 +71,12 @@ class _RT:
         for n in self.specs[ordinal].state:
             env[n].vf_havoc()
 
-    def assume_iter(self, ordinal, env, var, b):
+    def assume_iter(self, ordinal, env, var, b, a=None):
         spec = self.specs[ordinal]
         core.assume(spec.inv(env))
         core.assume(self._t(var) < self._t(b))
+        if a is not None:
+            core.assume(self._t(var) >= self._t(a))     # a range loop variable never drops below its start (positive step)
 
     def assume_exit(self, ordinal, env, var, b):
         spec = self.specs[ordinal]
@@ -148,7 +150,7 @@ def cut_loops(fn, specs, module=None):
             pre[0].value = ast.Tuple(elts=[A, B, S], ctx=ast.Load())
             pre += stmts([f'__vf.positive_step(_vf_S{ordn})', f'{var} = _vf_A{ordn}', f"__vf.check({ordn}, 'entry', locals())"])
             hav = [f"{n} = __vf.fresh({ordn}, '{n}', locals().get('{n}'))" for n in assigned + [var]]
-            it_branch = stmts(hav + [f'__vf.havoc_state({ordn}, locals())', f'__vf.assume_iter({ordn}, locals(), {var}, _vf_B{ordn})'])
+            it_branch = stmts(hav + [f'__vf.havoc_state({ordn}, locals())', f'__vf.assume_iter({ordn}, locals(), {var}, _vf_B{ordn}, _vf_A{ordn})'])
             it_branch += node.body
             it_branch += stmts([f'{var} = {var} + _vf_S{ordn}', f"__vf.check({ordn}, 'preserved', locals())", '__vf.end_path()'])
             ex_branch = stmts(hav + [f'__vf.havoc_state({ordn}, locals())', f'__vf.assume_exit({ordn}, locals(), {var}, _vf_B{ordn})'])
